@@ -105,6 +105,19 @@ func c13Exec(c *core.Ctx, cs c13Case) {
 			return
 		}
 	}
+	if pe, ok := err.(interp.ParamExpError); ok && want.Err == "indicate" {
+		// ${x?word}: the message is the expansion of word; an omitted word asks for a
+		// message of the implementation's own choice (a word that expands to nothing does not)
+		switch {
+		case !want.HasWord && pe.Msg == "":
+			c.Violation("message", key, "a message that says the parameter is unset or null (no word was given)", `""`, "")
+			return
+		case want.HasWord && want.MsgOK && pe.Msg != want.Msg:
+			c.Violation("message", key, fmt.Sprintf("%q (the expansion of the word)", want.Msg), fmt.Sprintf("%q", pe.Msg), "")
+			return
+		}
+		c.Count("messages-judged", 1)
+	}
 	switch {
 	case want.Err != "" && err == nil:
 		c.Violation("error-missed", key, "ParamExpError ("+want.Err+")", fmt.Sprintf("fields %q", got), "")
